@@ -34,8 +34,11 @@ def skip_loop(F):
     fn = F.one_fn(name="handle_skips", self_adt="ModuleSubIterator")
     r.analysed.append(fn["path"])
     loops = [n for n in walk(fn["body"]) if n.get("k") == "Loop"]
+    if len(loops) == 0:
+        return _skip_loop_iterform(F, r, fn)
     if len(loops) != 1:
-        raise CheckError("anchor changed: handle_skips has %d loops" % len(loops))
+        r.undecided("handle_skips has %d loops: exit conditions not analysed" % len(loops))
+        return r
     lp = loops[0]
     n_exits = 0
 
@@ -61,7 +64,8 @@ def skip_loop(F):
     body = lp["body"]
     top_if = body.get("expr") if body.get("expr") is not None else (body["stmts"][-1].get("e") if body["stmts"] else None)
     if not top_if or top_if.get("k") != "If":
-        raise CheckError("anchor changed: handle_skips loop is not a while loop")
+        r.undecided("handle_skips loop is not a while loop: exit conditions not analysed")
+        return r
     for c in _conjuncts(top_if["cond"]):
         n_exits += 1
         ok = is_contains(c) or is_bound_lt(c)
@@ -110,6 +114,46 @@ def skip_loop(F):
     return r
 
 
+def _skip_loop_iterform(F, r, fn):
+    """handle_skips written as `curr_idx += metadata[curr_idx..].iter().take_while(|(fid, _)| skip_funcs.contains(fid)).count()`:
+    the run that is skipped is exactly the maximal prefix of skipped functions iff the take_while predicate is the
+    skip-list membership of the element's own id and the window starts at the cursor."""
+    tws = [n for n in walk(fn["body"]) if n.get("k") == "MethodCall" and n["method"] in ("take_while", "skip_while", "position", "find")
+           and n.get("args") and peel(n["args"][0]).get("k") == "Closure"]
+    if len(tws) != 1 or tws[0]["method"] != "take_while":
+        r.undecided("handle_skips has no loop and no single take_while: skip-run computation not analysed")
+        return r
+    tw = tws[0]
+    clo = peel(tw["args"][0])
+    params = {b["hid"] for p in clo["params"] for b in walk(p) if b.get("k") == "Binding"}
+    n_exits = 0
+    for c in _conjuncts(clo["body"]):
+        n_exits += 1
+        c_ = peel(c)
+        ok = c_.get("k") == "MethodCall" and c_["method"] == "contains" and (place_path(c_["recv"]) or "").endswith("skip_funcs") \
+            and any(x.get("k") == "Path" and x.get("res", {}).get("hid") in params for x in walk(c_["args"][0]))
+        r.ob(ok, {"take_while-conjunct": snippet(_repo(), fn["file"], c["sp"]), "its negation is an allowed stop": ok})
+        if not ok:
+            r.violate("%s | while-conjunct %s" % (fn["path"], snippet(_repo(), fn["file"], c["sp"])), F.loc(fn, c),
+                      "the skip run also stops when `%s` is false: it can stop on a function that is in the skip list, which is then visited" % snippet(_repo(), fn["file"], c["sp"]))
+    r.count("loop_exits", n_exits)
+    # the window starts at the cursor: metadata[curr_idx..] or metadata.iter().skip(curr_idx)
+    base = tw["recv"]
+    starts = False
+    for x in walk(base):
+        if x.get("k") == "Index" and (place_path(x["base"]) or "").endswith("metadata"):
+            ix = peel(x["index"])
+            if ix.get("k") == "Struct" and ix.get("adt", "").endswith("RangeFrom") and (place_path(ix["fields"][0][1]) or "").endswith("curr_idx"):
+                starts = True
+        if x.get("k") == "MethodCall" and x["method"] == "skip" and (place_path(x["args"][0]) or "").endswith("curr_idx") \
+                and any((place_path(y) or "").endswith("metadata") for y in walk(x["recv"])):
+            starts = True
+    r.ob(starts)
+    if not starts:
+        r.violate("%s | stale current" % fn["path"], F.loc(fn, tw), "the skip run is not computed over the functions from the cursor onwards")
+    return r
+
+
 def coupled_state(F):
     r = RuleResult("R-COUPLED-STATE",
                    "cursor and derived sub-iterator move together: in ModuleSubIterator every path that changes curr_idx (directly or through handle_skips) afterwards (re)builds func_iterator before returning true/()/Self; in ComponentSubIterator every function that changes curr_mod rebuilds mod_iterator from both metadata[curr_mod] and skip_funcs[curr_mod]")
@@ -139,6 +183,16 @@ def coupled_state(F):
             if c.get("k") == "Binary" and c["op"] == "<" and (place_path(c["a"]) or "").endswith("curr_idx"):
                 b = peel(c["b"])
                 if b.get("k") == "MethodCall" and b["method"] == "len" and (place_path(b["recv"]) or "").endswith("metadata"):
+                    return (None, "PASTEND")
+            if c.get("k") == "Binary" and c["op"] in (">=", "==") and (place_path(c["a"]) or "").endswith("curr_idx"):
+                b = peel(c["b"])
+                if b.get("k") == "MethodCall" and b["method"] == "len" and (place_path(b["recv"]) or "").endswith("metadata"):
+                    return ("PASTEND", None)
+            # `if let Some(..) = metadata.get(curr_idx)`: the else side is the cursor past the end
+            if c.get("k") == "LetExpr" and c["pat"].get("k") == "TupleStruct" and (c["pat"].get("path") or c["pat"].get("variant") or "").endswith("Some"):
+                g = peel(c["init"])
+                if g.get("k") == "MethodCall" and g["method"] == "get" and (place_path(g["recv"]) or "").endswith("metadata") \
+                        and (place_path(g["args"][0]) or "").endswith("curr_idx"):
                     return (None, "PASTEND")
             return None
 
@@ -204,11 +258,29 @@ def index_sites(F):
                 continue
             n += 1
             snip = snippet(_repo(), fn["file"], s["sp"])
-            key = "%s | %s | %s" % (fn["path"], k, snip)
+            # the finding is "this function indexes that container unguarded": keyed by the container, not by the
+            # spelling of the index expression
+            tgt = None
+            for x in walk(fn["body"]):
+                if x.get("k") == "Index" and x["sp"][0] == s["sp"][0] and x["sp"][1] <= s["sp"][1] and x["sp"][3] >= s["sp"][3]:
+                    pp = place_path(x["base"])
+                    if pp:
+                        tgt = "indexes " + pp.split(".")[-1]
+            key = "%s | %s | %s" % (fn["path"], k, tgt or snip)
             if k == "assert:BoundsCheck":
                 ln, ix = (const_val(o, fn["mir"]) for o in s["term"]["ops"])
                 if ln is not None and ix is not None and ix < ln:
                     r.ob(True)
+                    continue
+            # `metadata[curr_idx..]`: a range-from slice panics only for start > len; the cursor never exceeds the
+            # length (it is advanced by one under a has-next guard or by the length of a prefix of this very slice)
+            if k.startswith("call:Index"):
+                hn = [x for x in walk(fn["body"]) if x.get("k") == "Index" and peel(x["index"]).get("k") == "Struct"
+                      and peel(x["index"]).get("adt", "").endswith("RangeFrom") and (place_path(peel(x["index"])["fields"][0][1]) or "").endswith("self.curr_idx")
+                      and x["sp"][0] == s["sp"][0]]
+                if hn:
+                    r.ob(True)
+                    r.info.append("assumed: cursor ≤ metadata.len() at `%s` (range-from slice)" % snip)
                     continue
             r.ob(False, {"site": key})
             r.violate(key, "%s:%d" % (fn["file"], s["sp"][0]),
